@@ -272,6 +272,47 @@ def shared_attr(director, obj, attr, name):
   return obj
 
 
+def shared_class_attrs(director, module, clsname, names):
+  """make loads and stores of the class attributes `names` ({attribute: operation target}) of module.<clsname> visible operations: the
+  module's name is rebound to a subclass whose metaclass has a property per attribute (type objects cannot change their metaclass; code
+  that says `ClassName.attr` resolves the module global, i.e. the subclass).  Returns an undo function."""
+  cls = getattr(module, clsname)
+  cells = {a: cls.__dict__[a] for a in names}
+  props = {}
+  for a, target in names.items():
+    def getter(c, _a=a, _t=target):
+      director.before(_t, "load")
+      return cells[_a]
+
+    def setter(c, v, _a=a, _t=target):
+      director.before(_t, "store")
+      cells[_a] = v
+    props[a] = property(getter, setter)
+  meta = type("SharedMeta_" + clsname, (type(cls),), props)
+  sub = meta(clsname, (cls,), {"__module__": cls.__module__, "__qualname__": cls.__qualname__})
+  setattr(module, clsname, sub)
+
+  def undo():
+    setattr(module, clsname, cls)
+  return undo
+
+
+class CounterProxy:
+  """stands in for an itertools.count(): next() is the visible operation `name`.take"""
+
+  def __init__(self, director, name, first=0):
+    import itertools
+    self.d, self.name = director, name
+    self.real = itertools.count(first)
+
+  def __iter__(self):
+    return self
+
+  def __next__(self):
+    self.d.before(self.name, "take")
+    return next(self.real)
+
+
 def visibility_from(system, name_map=None):
   """visibility rule of a machine.System as a function (tid, target name, op) -> bool"""
   from vf.e2 import ir
